@@ -83,6 +83,9 @@ def _make_array(recipe):
             L = rs.standard_normal((d, d))
             out[i] = L @ L.T + d * np.eye(d)
         return out[0] if recipe.get("single") else out
+    if kind == "stack3":
+        rs = np.random.RandomState(recipe["seed"] & 0x7FFFFFFF)
+        return np.ascontiguousarray(rs.standard_normal(tuple(int(v) for v in recipe["shape"])))
     if kind == "const":
         return np.full(tuple(recipe["shape"]), float(recipe["value"]))
     n, d = recipe["shape"]
